@@ -299,6 +299,8 @@ def r01b(ctx):
     for s, (br, bc, ed) in steps:
         n_ob += 1
         ir, ic = _idx(br), _idx(bc)
+        from ..astx import resolve_local as _rl
+        ed = _rl(best.node, ed)       # `diag_edit = self.edit_matrix[row][col]` read as the cell it names
         etxt = ast.unparse(ed).replace(" ", "")
         dr = ir[1] if ir and ir[0] == r2 else (0 - 0 if ir and ir[0] == "const" and ir[1] == 0 else None)
         dc = ic[1] if ic and ic[0] == c2 else None
@@ -409,6 +411,20 @@ def r01c(ctx):
     else:
         ctx.violation("R01c", f, "MultiSetEdit.__init__", init.node, "matched = F & T",
                       "the multiset of identical elements is not from_set & to_set")
+    # the key pre-match may live in a same-class helper that is handed both collections and returns the reduced ones
+    # (`from_set, to_set = self._match_equal_keys(from_set, to_set)`): its clauses are then read there, under its names
+    init_node_full, F0, T0 = init.node, F, T
+    for a_ in walk_no_nested(init.node):
+        if isinstance(a_, ast.Assign) and isinstance(a_.value, ast.Call) and self_attr(a_.value.func) \
+                and {F, T} <= {dotted(x) for x in a_.value.args}:
+            h_ = m.method(q, self_attr(a_.value.func))
+            if h_ is not None:
+                hp_ = [p_ for p_ in func_params(h_.node) if p_ != "self"]
+                pos_ = {dotted(x): k_ for k_, x in enumerate(a_.value.args)}
+                if pos_[F] < len(hp_) and pos_[T] < len(hp_):
+                    init = h_
+                    F, T = hp_[pos_[F]], hp_[pos_[T]]
+    where_pm = f"MultiSetEdit.{init.node.name}"
     # in-place mutation of the operands is only allowed on private copies
     copies = {s.targets[0].id for s in walk_no_nested(init.node) if isinstance(s, ast.Assign) and isinstance(s.targets[0], ast.Name)
               and isinstance(s.value, ast.Call) and (call_name(s.value) or "").endswith("Counter")
@@ -472,6 +488,8 @@ def r01c(ctx):
         ctx.violation("R01c", f, "MultiSetEdit.__init__", init.node, "pre-match by key equality",
                       "the key pre-match no longer requires f.key == t.key")
     # matcher over the leftovers
+    init = m.method(q, "__init__")
+    F, T = F0, T0
     n += 1
     mc = [c for c in walk_no_nested(init.node) if isinstance(c, ast.Call) and (call_name(c) or "").endswith("WeightedBipartiteMatcher")]
     if mc and ast.unparse(kwarg(mc[0], "from_nodes", 0)).replace(" ", "") == "self.to_remove.elements()" \
